@@ -65,6 +65,8 @@ fn trace_op(rt: &Rt, what: &str, addr: usize, old: u64, new: u64) {
     eprintln!("  [step {:>5}] t{} {:<28} @{:06x} {:#x} -> {:#x}", rt.steps.get(), rt.cur.get(), what, addr & 0xffffff, old, new);
 }
 
+pub const K_POST: u8 = 12;
+
 #[inline]
 fn changed(rt: &Rt, addr: usize, old: u64, new: u64) {
     if rt.trace.get() {
@@ -73,6 +75,13 @@ fn changed(rt: &Rt, addr: usize, old: u64, new: u64) {
     if old != new {
         rt.fp.set(rt.fp.get() ^ mix(addr as u64, old) ^ mix(addr as u64, new));
         rt.idle_ops[rt.cur.get()].set(0);
+    }
+    if rt.post_write.get() && rt.active.get() && !std::thread::panicking() {
+        // a second scheduling point after the write took effect: whatever non-atomic code
+        // follows (writing the payload after its tag, dropping a value after committing the
+        // position) can now be interleaved with other tasks
+        raw_switch(rt);
+        account(rt, K_POST);
     }
 }
 
